@@ -613,7 +613,7 @@ theorem threadBody_shape (t : Option TlsO) (b : Bool) : Always (threadBody t b) 
     · exact Always.pure rfl
     · exact Always.pure rfl
 
-theorem threadRun_shape (l : LibO) (t : Option TlsO) (b : Bool) :
+theorem threadRun_shape (l : LibO) (t : Option TlsO) (b : ThrOpt) :
     Always (threadRun l t b) (fun r => r.2.2.isSome = t.isSome) := by
   unfold threadRun
   apply Always.bind; intro a
@@ -623,11 +623,12 @@ theorem threadRun_shape (l : LibO) (t : Option TlsO) (b : Bool) :
     · apply Always.bind; intro _; exact Always.pure rfl
     · apply Always.bind; intro nm
       apply Always.bind; intro lt
-      apply Always.bind' (threadBody_shape t b); intro r hr
+      apply Always.bind; intro _
+      apply Always.bind' (threadBody_shape t b.body); intro r hr
       exact Always.pure hr
   · exact Always.pure rfl
 
-theorem stepThread_inv {env : Env} {s : St} (hinv : Inv env s) (d : Nat) (body : Bool) (key : Option Nat) (f : Nat → Bool) :
+theorem stepThread_inv {env : Env} {s : St} (hinv : Inv env s) (d : Nat) (body : ThrOpt) (key : Option Nat) (f : Nat → Bool) :
     wp (stepThread env d body key) f s (fun r s' => Inv r.2 s') := by
   unfold stepThread
   cases hd : env.isEmpty d
